@@ -53,6 +53,7 @@ type Sched struct {
 	Holds        []Hold
 	holdSeen     []int // per hold: matching parks seen so far
 	holdLeft     []int // per hold: decisions the task is still held for
+	holdTask     []int // per hold: the task it holds (Hold.Task < 0: whichever task parks at the site)
 	HoldsHit     int
 	SlowSettles  int  // quiescence had to be established by synctest.Wait (diagnostics)
 	TraceBlocked bool // record where a task blocked without parking (diagnostics)
@@ -447,14 +448,16 @@ func (s *Sched) applyHolds(ready []*Task, justRan *Task) []*Task {
 	if s.holdSeen == nil {
 		s.holdSeen = make([]int, len(s.Holds))
 		s.holdLeft = make([]int, len(s.Holds))
+		s.holdTask = make([]int, len(s.Holds))
 	}
 	if justRan != nil {
 		if p, d, site := justRan.state(); p && !d {
 			for i, h := range s.Holds {
-				if h.Task == justRan.ID && strings.HasPrefix(site, h.Site) {
+				if (h.Task == justRan.ID || h.Task < 0) && strings.HasPrefix(site, h.Site) {
 					s.holdSeen[i]++
 					if s.holdSeen[i] == h.Nth {
 						s.holdLeft[i] = h.Len
+						s.holdTask[i] = justRan.ID
 						s.HoldsHit++
 						s.Trace = append(s.Trace, fmt.Sprintf("hold %s@%s for %d", justRan.Name, site, h.Len))
 					}
@@ -465,8 +468,8 @@ func (s *Sched) applyHolds(ready []*Task, justRan *Task) []*Task {
 	var out []*Task
 	for _, t := range ready {
 		held := false
-		for i, h := range s.Holds {
-			if h.Task == t.ID && s.holdLeft[i] > 0 {
+		for i := range s.Holds {
+			if s.holdTask[i] == t.ID && s.holdLeft[i] > 0 {
 				held = true
 			}
 		}
